@@ -719,6 +719,19 @@ Inductive fdefault := FRequired | FDefault (v : val) | FFactory (v : val) (* wha
 Record field := { fd_name : string; fd_type : hint; fd_default : fdefault }.
 Record dcdesc := { dc_name : string; dc_fields : list field }.
 
+(* a class deriving from a dataclass (or from another node's `.dataclass`) and cast with
+   dataclasses.dataclass -- what dataclass_node_factory does with EVERY class it is given, also
+   one that already passes is_dataclass by inheritance: the fields of the base come first, a
+   field the derived class declares again keeps its place with the new type and default, its
+   new fields are appended in the order written *)
+Fixpoint put_field (f : field) (fs : list field) : list field :=
+  match fs with
+  | [] => [f]
+  | g :: r => if String.eqb (fd_name g) (fd_name f) then f :: r else g :: put_field f r
+  end.
+Definition merge_fields (parent child : list field) : list field :=
+  fold_left (fun acc f => put_field f acc) child parent.
+
 (* dataclasses.dataclass itself: "non-default argument follows default argument" *)
 Fixpoint dc_order_ok (seen_default : bool) (fs : list field) : bool :=
   match fs with
